@@ -3,9 +3,9 @@
    Proofs/OciProofs.v and followed by Print Assumptions. Constants, tables and
    the append-offset arithmetic are the ones goextract read from /repo on this
    run (Generated/C12Oci.v). *)
-From Apko Require Import Base.Prelude Base.C12Lib Generated.C12Oci Model.Oci Model.OciTime Model.OciShlex Model.OciImage
-  Spec.OciSpec Spec.OciTimeSpec Spec.OciShlexSpec Spec.OciImageSpec
-  Proofs.OciProofs Proofs.OciScanProofs Proofs.OciTimeProofs Proofs.OciShlexProofs Proofs.OciImageProofs.
+From Apko Require Import Base.Prelude Base.C12Lib Generated.C12Oci Model.Oci Model.OciTime Model.OciShlex Model.OciImage Model.OciOptions
+  Spec.OciSpec Spec.OciTimeSpec Spec.OciShlexSpec Spec.OciImageSpec Spec.OciOptionsSpec
+  Proofs.OciProofs Proofs.OciScanProofs Proofs.OciTimeProofs Proofs.OciShlexProofs Proofs.OciImageProofs Proofs.OciOptionsProofs.
 From Coq Require Import Permutation Sorted.
 Open Scope string_scope. Open Scope list_scope.
 
@@ -535,3 +535,38 @@ Example c12_image_example :
     alookup "org.opencontainers.image.revision" (oc_labels (io_config out)) = Some "abc" /\
     List.map h_comment (io_history out) = [""; ""; ""].
 Proof. eexists. split; [vm_compute; reflexivity|]. repeat (split; try reflexivity). Qed.
+
+(* ---- the option layer in front of the configuration -----------------------------------------
+   `--annotations` (build.WithAnnotations) is merged into the configuration file's annotations;
+   "Commandline annotations take precedence".  [annotations_cmdline_wins] is the direction of
+   that copy, read from options.go by goextract on every run (which of the two maps is written
+   LAST into the map the build uses).  While it is true: for every configuration map, every
+   command-line map (a Go map: distinct keys), every iteration order and every number n >= 1 of
+   applications (the options are re-applied by NewOptions, LockImageConfiguration and once per
+   architecture by build.New): the annotation declared for a key is the command line's when it
+   has one and the configuration file's otherwise; applying the option again changes nothing;
+   and every command-line annotation whose key the emitter does not own (created; source and
+   revision when the VCS URL has a revision) is what c12_config_mapping / c12_index_annotations
+   demand as the emitted label / annotation.  With the copy the other way round the
+   configuration file wins (c12_annotations_precedence_refuted). *)
+Theorem c12_annotations_precedence : forall cfg cl ord n,
+  annotations_cmdline_wins = true -> NoDup (akeys cl) -> Permutation ord (akeys cl) -> n <> 0 ->
+  (forall k, alookup k (with_annotations_n n cfg cl ord) = declared_annotation cfg cl k) /\
+  with_annotations_n n cfg cl ord = with_annotations cfg cl ord /\
+  (forall rfc ic created k v, alookup k cl = Some v -> emitter_owned ic k = false ->
+     expected_label rfc (set_annotations ic (with_annotations_n n cfg cl ord)) created k = Some v).
+Proof. exact annotations_precedence. Qed.
+Print Assumptions c12_annotations_precedence.
+
+Theorem c12_annotations_precedence_refuted :
+  with_annotations_dir false [("k", "from-config-file")] [("k", "from-command-line")] ["k"] = [("k", "from-config-file")] /\
+  declared_annotation [("k", "from-config-file")] [("k", "from-command-line")] "k" = Some "from-command-line".
+Proof. exact annotations_precedence_refuted. Qed.
+Print Assumptions c12_annotations_precedence_refuted.
+
+(* the hypothesis holds on this tree; a copy in the other direction no longer compiles here *)
+Example c12_annotations_precedence_applies :
+  annotations_cmdline_wins = true /\
+  with_annotations_n 3 [("vendor", "from-config-file"); ("title", "demo")] [("vendor", "from-command-line"); ("licenses", "Apache-2.0")] ["licenses"; "vendor"]
+  = [("vendor", "from-command-line"); ("title", "demo"); ("licenses", "Apache-2.0")].
+Proof. split; reflexivity. Qed.
